@@ -156,6 +156,14 @@ theorem calcMultiPolygon_eq (ps : List Poly) (p : Pt) (acc : PosAcc) :
   simp only [key]
   by_cases h : (ps.foldl (fun a poly => calcPolygon poly p a) ⟨acc.inside, 0⟩).bcount > 0 <;> simp [h]
 
+/-- `GeometryCollection`: the members in order, the recursive call through the `Geometry` enum being `calcPos` itself -/
+theorem calcPosList_eq (gs : List Geom) (p : Pt) (acc : PosAcc) :
+    calcPosList gs p acc = Gen.geometryCollectionCalc calcPos gs p acc := by
+  unfold Gen.geometryCollectionCalc
+  induction gs generalizing acc with
+  | nil => simp [calcPosList]
+  | cons g gs ih => simp only [calcPosList, List.foldl_cons, ih]
+
 /-- the provided trait method `coordinate_position` on top of the accumulator -/
 theorem coordPos_eq (g : Geom) (p : Pt) : coordPos g p = Gen.coordinatePosition (calcPos g) p := by
   unfold coordPos Gen.coordinatePosition PosAcc.result
